@@ -131,6 +131,9 @@ func RunModelProgram(env *ev.Env, c ProgCase, opt ModelRunOptions) (o ev.Outcome
 				return
 			}
 			st.GCs++
+			if opt.AfterMaint != nil && opt.AfterMaint(s, inst, op, &o) {
+				return
+			}
 		case prog.OpReopen, prog.OpFlush, prog.OpRemap:
 			if op.Kind == prog.OpRemap && opt.Remap != nil {
 				layout = opt.Remap(layout)
